@@ -30,6 +30,37 @@ NOT_DECIDED = "numeric component results; every mask's index arithmetic beyond t
 ASSUMPTIONS = ["vector sizes 2..4 (spellable types): a vector's shape (n,1) never matches the inner dimension 1 of another vector"]
 
 
+def check_swizzle_flag(model, col, rule):
+    """Typing and lowering agree on what is a swizzle: wherever the type pass types a member access with ComputeSwizzleType
+    it marks that node `SetSwizzle(True)` (lowering reads the mark to choose between a shuffle and a field load), and on no
+    other path."""
+    from ..sem import expand_helpers
+
+    ctv = model.cls(CT, "ComputeTypeVisitor")
+    pe0 = ctv.own_method("_ProcessExpression")
+    if pe0 is None:
+        raise AnchorMissing(f"{CT}::_ProcessExpression")
+    pe = expand_helpers(model, ctv, pe0)
+    ep = pe.args.args[1].arg
+    n = 0
+    bad = None
+    for evs, status in paths(pe.body):
+        cs = calls_on_path(evs)
+        typed = [c for c in cs if last_attr(c) == "ComputeSwizzleType"]
+        marks = [c for c in cs if last_attr(c) == "SetSwizzle" and isinstance(c.func, ast.Attribute) and unparse(c.func.value) == ep]
+        true_marks = [c for c in marks if len(c.args) == 1 and isinstance(c.args[0], ast.Constant) and c.args[0].value is True]
+        if typed:
+            n += 1
+            if not true_marks or len(true_marks) != len(marks):
+                bad = bad or (typed[0], f"typed as a swizzle but marked {[unparse(c) for c in marks] or 'not at all'}")
+        elif marks and any(not (isinstance(c.args[0], ast.Constant) and c.args[0].value is False) for c in marks if c.args):
+            bad = bad or (marks[0], f"`{unparse(marks[0])}` on a path that does not type the access as a swizzle")
+    col.floor(rule, "paths typing a swizzle", n, 1)
+    col.check(bad is None, rule, f"{CT}::_ProcessExpression marks what it types as a swizzle", "ComputeSwizzleType(..) and SetSwizzle(True) on the same paths",
+              (bad[1] if bad else "") + ": lowering chooses between shuffle and field load by that mark, so a swizzle of a scalar (`s.xxx`) or of a vector is loaded as a structure "
+              "member and the VM indexes a number", CT, bad[0] if bad else pe0)
+
+
 def _construct_loops(stmts):
     """Classify every loop over `<instr>.Values` in the CONSTRUCT_PRIMITIVE arm:
     'flatten' (list elements extend the accumulator, others are appended),
@@ -409,6 +440,7 @@ def run(model, col, tier):
               "nsl/passes/AddImplicitCasts.py::v_ConstructPrimitiveExpression cast target", "target = the argument's shape with the result's component type", None, "nsl/passes/AddImplicitCasts.py", cpv)
     setargs = [c for c in ast.walk(cpv) if isinstance(c, ast.Call) and last_attr(c) == "SetArguments"]
     col.check(bool(setargs) and lst_name is not None and unparse(setargs[0].args[0]) == lst_name, "R04.7", "nsl/passes/AddImplicitCasts.py::v_ConstructPrimitiveExpression installs the converted arguments", "node.SetArguments(arguments)", None, "nsl/passes/AddImplicitCasts.py", cpv)
+    check_swizzle_flag(model, col, "R04.2")
     # ---------------- R04.9 component-type promotion of vector/matrix operands (= R09.2/R09.3) --------
     from . import c09
 
